@@ -20,10 +20,30 @@ MCInit == Init /\ hist = <<>>
 MCNext == Next /\ hist' = Append(hist, op')
 MCSpec == MCInit /\ [][MCNext]_mcvars
 
+\* a random operation of a random kind (no enumeration of the whole operation universe)
+GenNames == <<"pb", "pb", "pb", "pop", "ins", "ins", "insn", "insr", "era", "erar", "rsz", "rszv", "res", "clr", "asgn", "asgr", "asgc", "swp", "mva", "cpa", "del">>
+NewNames == <<"new", "new", "newn", "newnv", "newr", "newm", "cpc", "mvc">>
+RSeq(n) == [k \in 1..RandomElement(0..n) |-> RandomElement(Values)]
+GenOp(v) ==
+  LET n == vec[v].sz
+      nm == IF alive[v] THEN GenNames[RandomElement(1..Len(GenNames))] ELSE NewNames[RandomElement(1..Len(NewNames))]
+      constref == nm \in {"insn", "rszv", "asgn", "newnv"}
+      s == [f |-> IF constref THEN "ext" ELSE RandomElement(Forms), x |-> RandomElement(Values)]
+      a == RandomElement(0..n)
+      b == IF nm = "erar" THEN RandomElement(0..n) ELSE IF nm \in {"rsz", "rszv", "res"} THEN RandomElement(0..MaxCap) ELSE RandomElement(0..MaxN)
+      w == IF nm \in {"swp", "mva", "cpa", "cpc", "mvc"} THEN RandomElement(Vecs) ELSE 0
+  IN O(nm, v, w, IF nm \in {"ins", "insn", "insr", "era", "erar"} THEN a ELSE 0,
+       IF nm \in {"insn", "erar", "rsz", "rszv", "res", "asgn", "asgc", "newn", "newnv", "newm"} THEN b ELSE 0,
+       IF nm \in {"pb", "ins", "insn", "rszv", "asgn", "newnv"} THEN s ELSE NoSrc,
+       IF nm \in {"insr", "asgr", "newr"} THEN RSeq(MaxN) ELSE <<>>)
+
+\* one random operation per step (RandomElement: only the chosen successor is evaluated)
 GenNext ==
   \/ /\ Len(hist) < GenDepth
-     /\ Next
-     /\ hist' = Append(hist, op')
+     /\ \E v \in {RandomElement(Vecs)} : \E o \in {GenOp(v)} :
+          IF Pre(o) /\ (\A u \in Vecs : Apply(o).vec[u].cap <= MaxCap)
+          THEN Step(o) /\ hist' = Append(hist, op')
+          ELSE UNCHANGED vars /\ hist' = hist
   \/ /\ Len(hist) >= GenDepth
      /\ PrintT(<<"BEH", hist>>)
      /\ alive' = [v \in Vecs |-> ~Life]
